@@ -1,7 +1,7 @@
 # C05 — memory and db metadata stores expose the same filesystem
 PROPS["C05"] = dict(
     props_file="Properties/C05.v",
-    harnesses=[dict(cmd="stores", mod="cmdmod", model="Model.TreeStores", quick=80, thorough=5000, shard=20, coq_jobs=8, race=300,
+    harnesses=[dict(cmd="stores", mod="cmdmod", model="Model.TreeStores", quick=60, thorough=5000, shard=20, coq_jobs=8, race=300,
                     preamble="Open Scope Z_scope.",
                     require=["toc.builder-output", "toc.implicit-parent", "toc.repeated-dir", "toc.dir-after-child",
                              "toc.hardlink-to-hardlink", "toc.root-entry", "toc.respelled-name", "toc.empty-xattr",
@@ -39,19 +39,22 @@ PROPS["C05"] = dict(
         "os.FileMode.IsRegular is modelled as mode < 2^24 (true for every mode TOCEntry.Stat().Mode() can produce)",
     ],
     level_text="Coq theorems for all inputs: (1) tree agreement, proved by a simulation between the two-pass (memory) and the streaming (db) interpreter "
-               "whose relation carries an abstract, growing map from memory node indices to db node ids: for every TOC of the explicit boolean class "
-               "rooted_tocb (known non-link types, distinct cleaned names in any spelling, an entry whose name is an ancestor of another's precedes it, "
-               "single-chunk files; parents may be IMPLICIT at any depth, the first entry may be an EXPLICIT ROOT entry; any size, attributes, xattrs) "
-               "both stores accept and their complete views are equal (C05_stores_agree_rooted; implicit_tocb and the older simple class are subclasses); "
+               "whose relation carries an abstract, growing map from memory node indices to db node ids and the map from processed hardlink entries to the "
+               "node their name resolves to: for every TOC of the explicit boolean class hardlink_tocb (known types, distinct cleaned names in any spelling, "
+               "an entry whose name is an ancestor of another's precedes it and is a directory, single-chunk files; parents may be IMPLICIT at any depth, "
+               "the first entry may be an EXPLICIT ROOT entry, entries may be BACKWARD HARDLINKS to earlier non-directory entries incl. chains and "
+               "cross-directory links; any size, attributes, xattrs) both stores accept and their complete views are equal, incl. link counts and node "
+               "identity of all names of a file (C05_stores_agree_hardlinks; rooted_tocb, implicit_tocb and the simple class are earlier theorems); "
                "(2) the db attribute codec is the identity on the attributes both stores derive with the same function, and PutVarint/Varint round-trips "
                "every int64; (3) for every file whose chunks tile it, the chunk table the db store recomputes from neighbouring offsets equals the TOC's "
-               "and ChunkEntryForOffset agrees at every offset >= 0 (digest: chunkDigest, else the entry's digest, in both stores since fix-10); "
+               "and ChunkEntryForOffset agrees at every offset >= 0, and (C05_chunk_slice_memory/_db, C05_chunk_lookup_agree_in_toc) these per-file tables are "
+               "what pass 1 of initFields and the db initNodes fold really build for such a file anywhere inside ANY accepted TOC; "
                "(4) TOC digests agree for any decoder read-ahead; (5) both stores accept every hardlink-free TOC; (6) for every history of "
                "open/close/query on other layers of one database a live layer's view is unchanged and open never reuses a live id; (7) name cleaning is a "
                "normal form. The full statement over all conforming TOCs is refuted on the faithful models by three remaining classes (forward hardlink, "
                "chunk first, directory entry after a child: one vm_compute witness each, reproduced on the real code as known findings) plus the early "
-               "root attr. Tree equality for conforming TOCs with hardlinks, repeated directory entries or multi-chunk files inside the walk is NOT proved "
-               "(covered per case by the correspondence check + store-vs-store oracle).",
+               "root attr. NOT proved (covered per case by the correspondence check + store-vs-store oracle): tree equality for TOCs with repeated directory "
+               "entries, and the tree walk over TOCs that contain chunk entries (their chunk tables are proved, see (3)).",
     level_note="Both interpreters (estargz initFields + metadata/memory; db initNodes/writeAttr/readAttr/readChunks) are hand-modelled in "
                "coq/Model/TreeStores.v and evaluated inside Coq on every generated TOC against the views observed on the real stores. "
                "Eleven minimal repairs were made to /repo (patches/C05-fix-1..11), the model follows the repaired code.",
@@ -59,5 +62,5 @@ PROPS["C05"] = dict(
               "executable models against the two real stores; store-vs-store oracle on the real code",
     trusted=["metadata/memory + estargz.initFields and cmd/containerd-stargz-grpc/db are modelled by hand in coq/Model/TreeStores.v; tie = complete "
              "canonical view (path, attrs, xattrs, link count, offset, hardlink identity, openable, ChunkEntryForOffset probes) per store",
-             "tree equality of the two models outside rooted_tocb (hardlinks, repeated dirs, multi-chunk files in the walk, out-of-order entries) is checked per case, not proved"],
+             "tree equality of the two models outside hardlink_tocb (repeated dirs, chunk entries inside the tree walk, out-of-order entries) is checked per case, not proved; the models' tree walks use the fuel walk_fuel toc = 2 + longest entry name (the Go code recurses without bound)"],
 )
